@@ -1,7 +1,8 @@
 """C07 - C programs compiled by c2mir behave as under the reference compiler.
-ONLY the conversion kernel is claimed (DESIGN.md section 3, C07): the real `integer_promotion`,
-`arithmetic_conversion` and `cast_value` of c2mir/c2mir.c against ref/cconv_ref.h (C11 6.3.1.x, x86-64 LP64).
-Parser, check() and gen() are NOT decided by this check."""
+Claimed (DESIGN.md section 3, C07 and 8.4): the conversion kernel - the real `integer_promotion`, `arithmetic_conversion` and
+`cast_value` of c2mir/c2mir.c against ref/cconv_ref.h (C11 6.3.1.x, x86-64 LP64) - and the constant folding of the binary
+integer operators - the real `check_assign_op` against ref/cfold_ref.h (C11 6.5.5-6.5.12).
+Parser, the rest of check() and gen() are NOT decided by this check."""
 from vlib import Ob, run_all
 
 TYPES = ["bool", "char", "schar", "uchar", "short", "ushort", "int", "uint", "long", "ulong", "llong", "ullong",
@@ -63,8 +64,14 @@ def check(tier, only=None):
                       "bit patterns incl. NaN/inf/denormals, long double all canonical x87 encodings",
         },
         "assumptions": [
-            "ONLY the conversion kernel of C07 is decided; the parser, check() (incl. where it calls these functions and "
-            "the choice of an enum's underlying type) and gen() are NOT decided.",
+            "ONLY the conversion kernel and check_assign_op's folding of & | ^ << >> + - * / % on integer constants are decided; the parser, the "
+            "rest of check() (incl. where it calls these functions, the choice of an enum's underlying type, folding of comparisons, unary "
+            "operators, casts in context and floating operands - c2mir folds those in long double, which CBMC does not model as x87) and gen() are NOT decided.",
+            "fold.*: operands are constants of the 12 integer basic types with every value of the type; a folded constant is read as every c2mir "
+            "consumer reads it (convert_value to its own type); cases the standard leaves undefined (signed overflow, division by zero, INT_MIN/-1, "
+            "shift count out of range, << of a negative value or with an unrepresentable result) are not asserted; >> of a negative value is "
+            "arithmetic (gcc); * / %: operand type pairs concrete (quick: unsigned int x int, unsigned long x long long; thorough: 8 pairs), other "
+            "operators: all 144 type pairs symbolic; diagnostics dropped (message_file NULL)",
             "x86-64 SysV LP64 data model; plain char signed; out-of-range conversion to a signed integer type wraps "
             "(implementation-defined, gcc); round-to-nearest-even for integer/floating -> floating.",
             "floating -> integer conversions whose truncated value is not representable are undefined (C11 6.3.1.4p1) "
